@@ -42,6 +42,9 @@ P['C12'] = dict(cat='other', tech='def-use closure of the REAL payload (types, c
 P['C17'] = dict(cat='other', tech=CODEC + '; truncating-write rule with writers-of-member proofs and range-guard dominance',
    text='Partial claim: length/count fields are read with the format\'s signedness and written from full-length values (at-limit clause); every truncating write is proven to fit or must be range-guarded (beyond-limit clause): 16 genuine unguarded sites recorded as known findings (K7), any new one is a violation.',
    note='Trusts spec/c3d_layout.json. ' + TB, ref='4/C17')
+P['C06'] = dict(cat='other', tech='finite-model walk of the CFG (A7) against the documented decision table + effect sets + loop normal form (custom libTooling checker)',
+   text='Partial claim: the four indexed setters match the append/replace/extend table on every row of a finite (idx,size) model with unsigned semantics, touch only their own container and contain no loop; column adders append exactly once per stored frame/sub-frame with matching indices. Does not observe bit-for-bit equality of untouched frames.',
+   note='Relies on the C08 no-aliasing result. ' + TB, ref='4/C06')
 NA = {
  'C19': 'compares compiled artefacts across optimisation levels / link kinds; not decidable from source without running the builds (DESIGN 4/C19)',
 }
